@@ -154,16 +154,16 @@ identityref_check_base(const struct lysc_ident *ident, struct lysc_type_identity
     LY_ARRAY_COUNT_TYPE u;
     struct lysc_ident *base;
 
-    /* check that the identity matches some of the type's base identities */
+    /* check that the identity is derived from all the type's base identities (RFC 7950 sec. 9.10.2) */
     LY_ARRAY_FOR(type->bases, u) {
-        if (!lyplg_type_identity_isderived(type->bases[u], ident)) {
-            /* we have match */
+        if (lyplg_type_identity_isderived(type->bases[u], ident)) {
+            /* not derived from this base */
             break;
         }
     }
 
-    /* it does not, generate a nice error */
-    if (u == LY_ARRAY_COUNT(type->bases)) {
+    /* it is not, generate a nice error */
+    if (u < LY_ARRAY_COUNT(type->bases)) {
         str = NULL;
         str_len = 1;
         LY_ARRAY_FOR(type->bases, u) {
